@@ -118,6 +118,46 @@ impl SubCheck for Accept {
 }
 
 // ---------------------------------------------------------------------------------------------
+pub struct AcceptLeap;
+impl SubCheck for AcceptLeap {
+    type Case = ZoneFile;
+    fn name(&self) -> &'static str {
+        "accept_leap_and_rule_aligned_files"
+    }
+    fn rule(&self) -> &'static str {
+        "case = a file as zic writes it: explicit transitions that end exactly on (or 1-3 s before) a transition of the file's own footer rule, or a generated zone, each optionally with 1-27 leap-second records (transition times then written in the leap-time scale); must be accepted, and transitions (in the written scale), leap-second records, types and footer must read back exactly; lookups answer without panicking; non-trivial = leap-second records present, or the last transition lies within 3 s of a rule transition"
+    }
+    fn strategy(&self) -> Option<BoxedStrategy<ZoneFile>> {
+        let with_leaps = zone_file(40).prop_flat_map(|f| {
+            let l = crate::gen::zone::leap_records(&f.model.transitions);
+            (Just(f), l).prop_map(|(mut f, l)| { f.leaps = l; f })
+        });
+        Some(prop_oneof![3 => crate::gen::zone::last_on_rule_file(), 2 => with_leaps].boxed())
+    }
+    fn check(&self, f: &ZoneFile, obs: &mut Obs) -> Result<(), String> {
+        let m = &f.model;
+        obs.nt_if(!f.leaps.is_empty(), "leap_second_records");
+        obs.label_if(f.leaps.last().map(|l| l.1 > 0).unwrap_or(false), "positive_total_correction");
+        if let (Some(last), Some(_)) = (m.transitions.last(), &m.footer) {
+            let near = Model { types: m.types.clone(), transitions: vec![], footer: m.footer.clone() }.change_points_near(last.0).iter().any(|p| (p - last.0).abs() <= 3);
+            obs.nt_if(near, "last_transition_at_rule_transition");
+        }
+        let bytes = f.bytes();
+        let z = parse_tzif(&bytes)?.map_err(|e| format!("a file written by the reference TZif writer was rejected: {e}"))?;
+        let raw = hook::dump(&z);
+        let written: Vec<(i64, usize)> = m.transitions.iter().map(|t| (crate::refmodel::zone::to_leap_time(t.0, &f.leaps), t.1)).collect();
+        ensure_eq!(raw.transitions, written, "transitions read back (leap-time scale)");
+        ensure_eq!(raw.leap_seconds, f.leaps, "leap-second records read back");
+        let d = dump_model(&z);
+        ensure_eq!(d.types, m.types, "local time types read back");
+        ensure_eq!(d.footer, m.footer, "footer rule read back");
+        let around: Vec<i64> = m.transitions.iter().map(|t| t.0).take(50).chain(f.leaps.iter().map(|l| l.0)).collect();
+        exercise_lookups(&z, &around)?;
+        Ok(())
+    }
+}
+
+// ---------------------------------------------------------------------------------------------
 pub struct AcceptTz;
 impl SubCheck for AcceptTz {
     type Case = (Rule, bool);
@@ -236,10 +276,24 @@ pub fn mutate(f: &ZoneFile, kind: u8, a: u32, b: u32) -> Option<Vec<u8>> {
         9 => { let last = l.chars() + charcnt - 1; bytes[last] = b'A'; bytes[l.types() + (a as usize % typecnt) * 6 + 5] = (charcnt - 1) as u8; }
         10 => { bytes[l.types() + (a as usize % typecnt) * 6 + 4] = 2 + (b % 254) as u8; }
         11 => {
-            if f.ind == Indicators::None { return None; }
             let k = a as usize % typecnt;
-            bytes[l.isstd() + k] = 0;
-            bytes[l.isut() + k] = 1;
+            match f.ind {
+                Indicators::None | Indicators::StdOnly => return None,
+                // only the UT/local block is present: an absent standard/wall block reads as all "wall"
+                Indicators::UtZerosOnly => bytes[l.isut() + k] = 1,
+                _ if b % 3 == 0 => {
+                    // drop the standard/wall block, keep a UT/local block that says "UT" somewhere
+                    let (at, n) = (l.isstd(), l.counts[1]);
+                    bytes.drain(at..at + n);
+                    let p = l.hdr + 20 + 4;
+                    bytes[p..p + 4].copy_from_slice(&0u32.to_be_bytes());
+                    bytes[at + k] = 1;
+                }
+                _ => {
+                    bytes[l.isstd() + k] = 0;
+                    bytes[l.isut() + k] = 1;
+                }
+            }
         }
         12..=16 => {
             if v1 { return None; }
@@ -452,7 +506,7 @@ impl SubCheck for Prefixes {
 }
 
 pub fn subs() -> Vec<Box<dyn DynSub>> {
-    vec![Box::new(Accept), Box::new(AcceptTz), Box::new(Mutations), Box::new(Garbage), Box::new(BadTz), Box::new(System), Box::new(Prefixes)]
+    vec![Box::new(Accept), Box::new(AcceptLeap), Box::new(AcceptTz), Box::new(Mutations), Box::new(Garbage), Box::new(BadTz), Box::new(System), Box::new(Prefixes)]
 }
 
 fn probe_f16() -> bool {
@@ -469,6 +523,7 @@ pub fn run(ctx: &Ctx) {
     }
     let n = ctx.n(300_000, 15_000_000);
     ctx.run_prop(&Accept, n);
+    ctx.run_prop(&AcceptLeap, n / 2);
     ctx.run_prop(&AcceptTz, n);
     ctx.run_prop(&Mutations, 3 * n);
     ctx.run_prop(&Garbage, 2 * n);
